@@ -28,9 +28,11 @@ package dsd
 //@   ensures err == nil ==> old(hasVarint(data) && dec(data, termL(data) + 1) <= 255)
 //@   ensures err == nil && old(isSer(uint8(dec(data, termL(data) + 1)))) ==> uint64(format) == old(dec(data, termL(data) + 1))
 //@   ensures !old(hasVarint(data)) ==> err != nil
+//@   ensures err == nil ==> isSer(format) && format != 1
 
 //@ func DecompressAndLoad
 //@   modifies pointee(t)
+//@   ensures err == nil ==> isSer(format) && format != 1
 //@   ensures !(compression == 0 || compression == 90) ==> err != nil
 
 // decoders do not modify their input (assumed for every GenCodeCompatible implementation)
